@@ -176,6 +176,7 @@ fn classify(lines: &[LineRecord], primary: u32) -> Burst {
 fn execute(prog: Program) -> Outcome {
     let mut out = Outcome { setup: Err("not formed".into()), violations: vec![], ops_judged: 0, max_lines: 0 };
     let w = World::new(prog.nodes);
+    maybe_segment(3, true);
     let primary = match w.form_cluster(1_300, 15_000) {
         Some(p) => p,
         None => {
